@@ -18,7 +18,7 @@ func init() {
 		c33(c)
 	})
 	register("C34", []string{"telegram/downloader"}, func(c *engine.Ctx) {
-		c.Explain("C34: (R1) reader.nextHashed requests exactly (hash.Offset, hash.Limit) of the hash it took from the verifier, returns the block only under verify(that hash, that block's data) == true and ErrHashMismatch otherwise; verifier.verify is bytes.Equal(SHA256(data), hash.Hash) over the whole data parameter. (R2) in cdn.verifyChunk every iteration of the window loop passes a successful comparison of SHA256 over a slice of the chunk with the hash of hashForOffset(current), or the nil-error edge of loadAndVerifyWindow followed by the copy of verified bytes into the chunk; each comparison's mismatch edge returns a non-nil error; loadAndVerifyWindow hands out window bytes only after bytes.Equal(SHA256(full.data), hash.Hash) or from the cache, and the cache is filled only there, after that comparison. (R3, wiring) the CDN schema verifies inline exactly when the outer verifier is off (verifyCDNInline = !verify of the same builder) and reader() installs the outer verifier exactly when verify is on. (R4) cdn.decrypt writes uint32(offset/16) into the last four IV bytes of a copy of the redirect's IV; buildCDNRequestPlan rejects limit <= 0, offset < 0 and values off the 4 KiB grid, emits {current, step} and advances current and remaining by that same step, never with step == 0; largestCDNValidLimit returns a size only under 1 MiB % size == 0. (R5) cdn.Chunk requests and decrypts each plan range with that range's own offset/limit and the redirect's token, but recovers, verifies and answers for the whole requested (offset, limit): recoverCDNControlError and verifyChunk receive the function's own offset and limit.")
+		c.Explain("C34: (R1) reader.nextHashed requests exactly (hash.Offset, hash.Limit) of the hash it took from the verifier, returns the block only under verify(that hash, that block's data) == true and ErrHashMismatch otherwise; verifier.verify is bytes.Equal(SHA256(data), hash.Hash) over the whole data parameter. (R2) in cdn.verifyChunk every iteration of the window loop passes a successful comparison of SHA256 over a slice of the chunk with the hash of hashForOffset(current), or the nil-error edge of loadAndVerifyWindow followed by the copy of verified bytes into the chunk; each comparison's mismatch edge returns a non-nil error; loadAndVerifyWindow hands out window bytes only after bytes.Equal(SHA256(full.data), hash.Hash) or from the cache, and the cache is filled only there, after that comparison. (R3, wiring) the CDN schema verifies inline exactly when the outer verifier is off (verifyCDNInline = !verify of the same builder) and reader() installs the outer verifier exactly when verify is on. (R4) cdn.decrypt writes uint32(offset/16) into the last four IV bytes of a copy of the redirect's IV; buildCDNRequestPlan rejects limit <= 0, offset < 0 and values off the 4 KiB grid, emits {current, step} and advances current and remaining by that same step, never with step == 0; largestCDNValidLimit returns a size only under 1 MiB %% size == 0. (R5) cdn.Chunk requests and decrypts each plan range with that range's own offset/limit and the redirect's token, but recovers, verifies and answers for the whole requested (offset, limit): recoverCDNControlError and verifyChunk receive the function's own offset and limit.")
 		c.NotCover("coverage arithmetic of hash windows over arbitrary part sizes; AES-CTR itself; token refresh interleavings")
 		c34(c)
 	})
